@@ -97,6 +97,8 @@ func main() {
 		}
 		o := safeExec(props.Registry[tr.Property], tr, false)
 		fmt.Printf("digest=%x violations=%d\n", o.Digest, len(o.Violations))
+	case "racepass":
+		os.Exit(cmdRacePass(os.Args[2:]))
 	case "list":
 		fmt.Println(strings.Join(props.IDs(), " "))
 	default:
@@ -315,6 +317,9 @@ func cmdReplay(path string) int {
 	}
 	if strings.HasSuffix(tr.Oracle, ".level_diff") {
 		return replayLevelDiff(path, tr)
+	}
+	if tr.Property == "C17" && tr.Note == "free" {
+		return replayFree(path, tr)
 	}
 	if re, code := reexecAtLevel(tr.Level); re {
 		return code
@@ -605,6 +610,9 @@ func cmdCheck(id, tier string) int {
 		}
 	}
 	wg.Wait()
+	if id == "C17" && os.Getenv("VERIF_NO_RACE_PASS") == "" {
+		racePhase(vd, seed, tier, levels, a)
+	}
 	if len(a.infra) > 0 {
 		for _, m := range a.infra {
 			fmt.Fprintln(os.Stderr, "infrastructure:", m)
@@ -1023,4 +1031,189 @@ func cmdSelfcheck(a []string) int {
 	}
 	fmt.Printf("determinism selfcheck ok: %d properties x 2 seeds x %d runs x 4 processes (GOMAXPROCS 1/4/16/16)\n", len(ids), n)
 	return 0
+}
+
+// ---------------------------------------------------------------- C17 race pass
+
+// cmdRacePass (run by the -race build): free-running task sets, no
+// synchronisation between tasks; outputs compared with solo runs. Race
+// reports go to GORACE's log_path and are collected by the parent.
+//
+//	racepass <seed> <from> <to>      generated task sets
+//	racepass trace <file> <repeat>   one recorded task set, repeated
+func cmdRacePass(a []string) int {
+	p := props.Registry["C17"]
+	enc := json.NewEncoder(os.Stdout)
+	if a[0] == "trace" {
+		tr, err := loadTrace(a[1])
+		if err != nil {
+			fmt.Fprintln(os.Stderr, err)
+			return exitInfra
+		}
+		rep, _ := strconv.Atoi(a[2])
+		tr.Note = "free"
+		bad := 0
+		for i := 0; i < rep; i++ {
+			o := safeExec(p, tr, false)
+			bad += len(o.Violations)
+			for _, v := range o.Violations {
+				fmt.Printf("  %s %s\n", v.Oracle, v.Detail)
+			}
+		}
+		if bad > 0 {
+			return exitViolation
+		}
+		return exitOK
+	}
+	seed, _ := strconv.ParseUint(a[0], 10, 64)
+	from, _ := strconv.Atoi(a[1])
+	to, _ := strconv.Atoi(a[2])
+	for i := from; i < to; i++ {
+		tr := genTrace(p, "quick", seed^0x17, i)
+		tr.Note = "free"
+		o := safeExec(p, tr, false)
+		o.Sigs = nil
+		enc.Encode(workerLine{Kind: "out", Idx: i, Level: archLevel(), Out: o})
+	}
+	enc.Encode(workerLine{Kind: "done", Level: archLevel()})
+	return exitOK
+}
+
+// racePhase runs the free-running pass with the race-detector build and folds
+// its results into the aggregate. Returns infra problems as strings.
+func racePhase(vd string, seed uint64, tier string, levels []int, a *agg) {
+	raceBin := filepath.Join(vd, "bin", "fgsim-race")
+	if _, err := os.Stat(raceBin); err != nil {
+		a.infra = append(a.infra, "race-detector build bin/fgsim-race is missing (check.sh builds it for C17)")
+		return
+	}
+	n := 40
+	if tier == "thorough" {
+		n = 400
+	}
+	tmp, err := os.MkdirTemp("", "fgsim-race")
+	if err != nil {
+		a.infra = append(a.infra, err.Error())
+		return
+	}
+	defer os.RemoveAll(tmp)
+	type job struct{ level, procs, from, to int }
+	var jobs []job
+	k := 0
+	for _, l := range levels {
+		for _, gp := range []int{2, 4, 16} {
+			jobs = append(jobs, job{l, gp, k * n, (k + 1) * n})
+			k++
+		}
+	}
+	var wg sync.WaitGroup
+	sem := make(chan struct{}, 4)
+	for ji, j := range jobs {
+		wg.Add(1)
+		go func(ji int, j job) {
+			defer wg.Done()
+			sem <- struct{}{}
+			defer func() { <-sem }()
+			logp := filepath.Join(tmp, fmt.Sprintf("race_%d", ji))
+			cmd := exec.Command(raceBin, "racepass", strconv.FormatUint(seed, 10), strconv.Itoa(j.from), strconv.Itoa(j.to))
+			cmd.Env = append(os.Environ(), fmt.Sprintf("FASTGO_VERIF_ARCHLEVEL=%d", j.level), fmt.Sprintf("GOMAXPROCS=%d", j.procs),
+				"GORACE=log_path="+logp+" halt_on_error=0 exitcode=0 history_size=3")
+			out, err := cmd.Output()
+			if err != nil {
+				a.mu.Lock()
+				a.infra = append(a.infra, fmt.Sprintf("race pass level %d GOMAXPROCS %d: %v", j.level, j.procs, err))
+				a.mu.Unlock()
+				return
+			}
+			dec := json.NewDecoder(bytes.NewReader(out))
+			for {
+				var wl workerLine
+				if dec.Decode(&wl) != nil {
+					break
+				}
+				if wl.Kind == "out" {
+					for vi := range wl.Out.Violations {
+						if wl.Out.Violations[vi].Trace != nil {
+							wl.Out.Violations[vi].Trace.Note = "free"
+						}
+					}
+					a.add(1000000+wl.Idx, j.level, wl.Out)
+				}
+			}
+			// race reports
+			files, _ := filepath.Glob(logp + ".*")
+			for _, f := range files {
+				b, _ := os.ReadFile(f)
+				reports := strings.Split(string(b), "==================")
+				for _, rep := range reports {
+					if !strings.Contains(rep, "WARNING: DATA RACE") {
+						continue
+					}
+					a.mu.Lock()
+					a.stats["race_reports_total"]++
+					if strings.Contains(rep, "github.com/intel/fastgo") {
+						tr := &props.Trace{Property: "C17", Level: j.level, Seed: seed, Note: "free", Oracle: "C17.race_report",
+							Detail: fmt.Sprintf("race detector report at level %d GOMAXPROCS %d (task sets %d..%d of seed %d):\n%s", j.level, j.procs, j.from, j.to, seed, clipStr(rep, 2500))}
+						a.viol = append(a.viol, levelViolation{level: j.level, idx: j.from, v: props.Violation{Oracle: "C17.race_report", Detail: tr.Detail, Trace: tr, Features: map[string]string{}}})
+						a.violCount++
+					} else {
+						a.infra = append(a.infra, "race report inside the harness itself:\n"+clipStr(rep, 1500))
+					}
+					a.mu.Unlock()
+				}
+			}
+			a.mu.Lock()
+			a.stats["race_pass_processes"]++
+			a.mu.Unlock()
+		}(ji, j)
+	}
+	wg.Wait()
+}
+
+func clipStr(s string, n int) string {
+	if len(s) > n {
+		return s[:n] + "..."
+	}
+	return s
+}
+
+// replayFree re-runs a free-running C17 task set with the race-detector build.
+func replayFree(path string, tr *props.Trace) int {
+	raceBin := filepath.Join(verifDir(), "bin", "fgsim-race")
+	if _, err := os.Stat(raceBin); err != nil {
+		fmt.Fprintln(os.Stderr, "replay: bin/fgsim-race missing; run ./check.sh racebuild")
+		return exitInfra
+	}
+	if tr.Multi == nil {
+		// a race report found over a range of generated task sets: re-run the range
+		tmp, _ := os.MkdirTemp("", "fgsim-race")
+		defer os.RemoveAll(tmp)
+		logp := filepath.Join(tmp, "race")
+		for _, gp := range []int{2, 4, 16} {
+			cmd := exec.Command(raceBin, "racepass", strconv.FormatUint(tr.Seed, 10), strconv.Itoa(tr.Index), strconv.Itoa(tr.Index+40))
+			cmd.Env = append(os.Environ(), fmt.Sprintf("FASTGO_VERIF_ARCHLEVEL=%d", tr.Level), fmt.Sprintf("GOMAXPROCS=%d", gp), "GORACE=log_path="+logp+" halt_on_error=0 exitcode=0")
+			cmd.Run()
+		}
+		files, _ := filepath.Glob(logp + ".*")
+		for _, f := range files {
+			b, _ := os.ReadFile(f)
+			if strings.Contains(string(b), "WARNING: DATA RACE") && strings.Contains(string(b), "github.com/intel/fastgo") {
+				fmt.Printf("VIOLATION property=C17 replay=%s\n  oracle=C17.race_report\n%s\n", path, clipStr(string(b), 3000))
+				return exitViolation
+			}
+		}
+		fmt.Println("replay: no race report this time (the free-running pass does not control the interleaving)")
+		return exitOK
+	}
+	for _, gp := range []int{2, 4, 16} {
+		cmd := exec.Command(raceBin, "racepass", "trace", path, "20")
+		cmd.Env = append(os.Environ(), fmt.Sprintf("FASTGO_VERIF_ARCHLEVEL=%d", tr.Level), fmt.Sprintf("GOMAXPROCS=%d", gp), "GORACE=halt_on_error=0 exitcode=0")
+		out, err := cmd.CombinedOutput()
+		if ee, ok := err.(*exec.ExitError); ok && ee.ExitCode() == exitViolation {
+			fmt.Printf("VIOLATION property=C17 replay=%s\n  oracle=%s (free-running, GOMAXPROCS %d)\n%s\n", path, tr.Oracle, gp, clipStr(string(out), 2000))
+			return exitViolation
+		}
+	}
+	fmt.Println("replay: not reproduced in 60 free-running repetitions")
+	return exitOK
 }
